@@ -232,7 +232,10 @@ def run(ctx):
         "; ".join(probs) if probs else "run_internet polled only under tokio::time::timeout(duration + 1s); elapsed maps to TimedOut")
     # timer task: sleep(duration) then shut_down_with_status(TimedOut)
     probs = []
-    if len(timer) != 1:
+    if len(timer) == 0:
+        # the other way of producing the timed-out status: the wait itself under tokio::time::timeout(duration, ..)
+        probs += _timeout_wrapper_form(prog, ri)
+    elif len(timer) != 1:
         probs.append("expected one timeout task in run_internet, found %d" % len(timer))
     else:
         tk = [prog.body(ck) for bb, ck in K.closure_creations(ri) if any(K.calls_to(prog.body(ck), "shut_down_with_status"))][0]
@@ -254,6 +257,58 @@ def run(ctx):
         # the task is created on the Some(duration) arm only: trivially by construction (uses `duration`)
     (ctx.bad if probs else ctx.ok)("I-TIMEOUT", "I-TIMEOUT:timer-task", ri.span,
         "; ".join(probs) if probs else "timer task: sleep(duration) completes before shut_down_with_status(TimedOut)")
+
+
+def _timeout_wrapper_form(prog, ri):
+    """run_internet without a timer task: accepted when the wait runs under tokio::time::timeout(<the timeout>, ..), the
+    elapsed case yields TimedOut, and a Shutdown handle that run_internet never gives away stays alive meanwhile (otherwise
+    the broadcast channel closes as soon as every start() has returned and the run reports Exited long before the timeout)."""
+    probs = []
+    to = K.calls_to(ri, "tokio::time::timeout::timeout")
+    if len(to) != 1:
+        return ["no timer task and no tokio::time::timeout in run_internet: nothing produces the timed-out status"]
+    a = dep.origins(ri, F.call_args(to[0][1])[0])
+    if not (dep.has_param(a, "timeout") or any(x[0] == "upvar" and x[1] == "timeout" for x in a)) or any(x[0] == "op" for x in a):
+        probs.append("the duration given to tokio::time::timeout is not the unmodified timeout")
+    tagg = [st for blk in ri.blocks if not blk["c"] for st in blk["s"] if st[0] == "a" and st[2][0] == "agg" and st[2][1].get("d", "").endswith("shutdown::ExitStatus")]
+    if not any(st[2][1]["v"] == "TimedOut" for st in tagg):
+        probs.append("the elapsed case does not yield ExitStatus::TimedOut")
+    owned = [l for l in range(len(ri.locals)) if "shutdown::Shutdown" in ri.local_tystr(l) and not ri.local_tystr(l).startswith(("&", "*"))
+             and "closure" not in ri.local_tystr(l) and "Receiver" not in ri.local_tystr(l)]
+    moved = set()
+
+    def ops(x):
+        if isinstance(x, list):
+            if len(x) == 2 and x[0] == "mv" and isinstance(x[1], list) and len(x[1]) == 2 and not x[1][1] and isinstance(x[1][0], int):
+                moved.add(x[1][0])
+            for y in x:
+                ops(y)
+        elif isinstance(x, dict):
+            for y in x.values():
+                ops(y)
+    for blk in ri.blocks:
+        if blk["c"]:
+            continue
+        for st in blk["s"]:
+            ops(st)
+        ops(blk["t"])
+    assigned = set()
+    for blk in ri.blocks:
+        if blk["c"]:
+            continue
+        for st in blk["s"]:
+            if st[0] == "a" and not st[1][1]:
+                assigned.add(st[1][0])
+        d = F.call_dest(blk["t"]) if blk["t"][0] == "call" else None
+        if d and not d[1]:
+            assigned.add(d[0])
+    g = cfg(ri)
+    early = {blk["t"][1][0] for bb, blk in enumerate(ri.blocks) if not blk["c"] and blk["t"][0] == "drop" and not blk["t"][1][1] and g.dominates(bb, to[0][0])}
+    kept = [l for l in owned if l in assigned and l not in moved and l not in early]
+    if not kept:
+        probs.append("no timer task holds a Shutdown handle and run_internet keeps none while it waits: once every start() has "
+                     "returned the channel is closed and the run reports Exited at once instead of TimedOut at the timeout")
+    return probs
 
 
 def _lagged_blocks(gs):
